@@ -117,7 +117,7 @@ def boundary():
                 text = open(os.path.join(here, f), encoding="utf-8").read()
             except OSError:
                 continue
-            for lit in re.findall(r'"(?:[^"\\\n]|\\.)*"', text):
+            for lit in re.findall(r'"(?:[^"\\\n]|\\.)*"', text) + re.findall(r"'(?:[^'\\\n]|\\.)*'", text):
                 words.update(re.findall(r"[a-z_][a-z0-9_]*", lit))
         _BOUNDARY = words
     return _BOUNDARY
